@@ -7,8 +7,8 @@ structure Inv (c : Conn) (p : Bytes) : Prop where
   safe : Safe c
   tx : c.kacc ++ c.txbs = p
   rx : c.cleared ++ c.rxbs = c.kdel
-  wtx : c.wireTx = if c.wl then c.kacc else []
-  wrx : c.wireRx = if c.wl then c.kdel else []
+  wtx : c.wireTx = if c.logTx then c.kacc else []
+  wrx : c.wireRx = if c.logRx then c.kdel else []
 
 theorem sendFault_inv {c : Conn} {p : Bytes} (code : Nat) (h : Inv c p) :
     Inv (finishSend (sendFault c code)).1 p := by
@@ -27,7 +27,7 @@ theorem send_inv {c : Conn} {p : Bytes} (h : Inv c p) : Inv (finishSend (send c)
     · simp only [finishSend, List.append_assoc, List.take_append_drop]
       exact h.tx
     · simp only [finishSend]
-      cases hw : c.wl <;> simp [h.wtx, hw]
+      cases hw : c.logTx <;> simp [h.wtx, hw]
 
 theorem serviceSends_inv {c : Conn} {p : Bytes} (h : Inv c p) : Inv (serviceSends c).1 p := by
   unfold serviceSends
@@ -62,7 +62,7 @@ theorem recvLoop_inv (script : List RResp) : ∀ {c : Conn} {p : Bytes}, Inv c p
           refine ⟨h.safe, h.tx, ?_, h.wtx, ?_⟩
           · simp [← h.rx]
           · simp only
-            cases hw : c.wl <;> simp [h.wrx, hw]
+            cases hw : c.logRx <;> simp [h.wrx, hw]
 
 theorem serviceReceiveOnce_inv {c : Conn} {p : Bytes} (h : Inv c p) : Inv (serviceReceiveOnce c).1 p := by
   unfold serviceReceiveOnce
@@ -76,7 +76,7 @@ theorem serviceReceiveOnce_inv {c : Conn} {p : Bytes} (h : Inv c p) : Inv (servi
         refine ⟨h.safe, h.tx, ?_, h.wtx, ?_⟩
         · simp [← h.rx]
         · simp only
-          cases hw : c.wl <;> simp [h.wrx, hw]
+          cases hw : c.logRx <;> simp [h.wrx, hw]
   · exact h
 
 theorem serviceReceives_inv {c : Conn} {p : Bytes} (h : Inv c p) : Inv (serviceReceives c).1 p := by
@@ -125,17 +125,19 @@ theorem run_inv (ops : List Op) : ∀ {c : Conn} {p : Bytes}, Inv c p → Inv (r
     rw [run, payload_cons, ← List.append_assoc]
     exact ih (step_inv op h)
 
-theorem init_inv (kind : Kind) (wl : Bool) (s : List SResp) (r : List RResp) (hs : wl = false ∨ PeerSafe kind) :
-    Inv (init kind wl s r) [] := by
-  refine ⟨hs, rfl, rfl, ?_, ?_⟩ <;> cases wl <;> rfl
+theorem init_inv (kind : Kind) (wl : Bool) (s : List SResp) (r : List RResp) (hs : wl = false ∨ PeerSafe kind)
+    (txed : Bool := true) (rxed : Bool := true) : Inv (init kind wl s r txed rxed) [] := by
+  refine ⟨hs, rfl, rfl, ?_, ?_⟩
+  · cases wl <;> cases txed <;> rfl
+  · cases wl <;> cases rxed <;> rfl
 
 /-! ### kind and wire-log flag never change -/
 
-theorem sendFault_wl (c : Conn) (code : Nat) : (finishSend (sendFault c code)).1.wl = c.wl := by
+theorem sendFault_wl (c : Conn) (code : Nat) : (finishSend (sendFault c code)).1.flags = c.flags := by
   unfold sendFault
   split <;> rfl
 
-theorem serviceSends_wl (c : Conn) : (serviceSends c).1.wl = c.wl := by
+theorem serviceSends_wl (c : Conn) : (serviceSends c).1.flags = c.flags := by
   unfold serviceSends
   split
   · unfold send
@@ -143,14 +145,14 @@ theorem serviceSends_wl (c : Conn) : (serviceSends c).1.wl = c.wl := by
     · exact sendFault_wl _ _
     · exact sendFault_wl _ _
     · rename_i n rest _
-      by_cases hcnd : 0 < min n c.txbs.length ∧ c.wlFailsTx = true <;> simp [hcnd, finishSend]
+      by_cases hcnd : 0 < min n c.txbs.length ∧ c.wlFailsTx = true <;> simp [hcnd, finishSend, Conn.flags]
   · rfl
 
-theorem recvFault_wl (c : Conn) (code : Nat) : (recvFault c code).1.wl = c.wl := by
+theorem recvFault_wl (c : Conn) (code : Nat) : (recvFault c code).1.flags = c.flags := by
   unfold recvFault
   split <;> rfl
 
-theorem recvLoop_wl (script : List RResp) : ∀ c : Conn, (recvLoop c script).1.wl = c.wl := by
+theorem recvLoop_wl (script : List RResp) : ∀ c : Conn, (recvLoop c script).1.flags = c.flags := by
   induction script with
   | nil => intro c; unfold recvLoop; split; rfl; exact recvFault_wl _ _
   | cons r rest ih =>
@@ -164,22 +166,22 @@ theorem recvLoop_wl (script : List RResp) : ∀ c : Conn, (recvLoop c script).1.
         · rfl
         · split
           · rfl
-          · rw [ih]
+          · rw [ih]; rfl
 
-theorem serviceReceives_wl (c : Conn) : (serviceReceives c).1.wl = c.wl := by
+theorem serviceReceives_wl (c : Conn) : (serviceReceives c).1.flags = c.flags := by
   unfold serviceReceives
   split
   · exact recvLoop_wl _ _
   · rfl
 
-theorem andThen_wl {r : Conn × Option Exn} {f : Conn → Conn × Option Exn} (hf : ∀ c, (f c).1.wl = c.wl) :
-    (andThen r f).1.wl = r.1.wl := by
+theorem andThen_wl {r : Conn × Option Exn} {f : Conn → Conn × Option Exn} (hf : ∀ c, (f c).1.flags = c.flags) :
+    (andThen r f).1.flags = r.1.flags := by
   obtain ⟨c, e⟩ := r
   cases e with
   | none => exact hf c
   | some e => rfl
 
-theorem step_wl (c : Conn) (op : Op) : (step c op).1.wl = c.wl := by
+theorem step_wl (c : Conn) (op : Op) : (step c op).1.flags = c.flags := by
   cases op with
   | tx d => rfl
   | ss => exact serviceSends_wl c
@@ -204,7 +206,7 @@ theorem step_wl (c : Conn) (op : Op) : (step c op).1.wl = c.wl := by
     · rw [andThen_wl serviceSends_wl, serviceReceives_wl]
     · rw [andThen_wl serviceSends_wl, serviceReceives_wl]
 
-theorem run_wl (ops : List Op) : ∀ c : Conn, (run c ops).wl = c.wl := by
+theorem run_wl (ops : List Op) : ∀ c : Conn, (run c ops).flags = c.flags := by
   induction ops with
   | nil => intro c; rfl
   | cons op ops ih => intro c; rw [run, ih, step_wl]
@@ -228,7 +230,7 @@ theorem serviceSends_empty (c : Conn) (h : c.txbs = []) : serviceSends c = (c, n
 /-- the connection after a `serviceSends` whose `send` took `min m |txbs|` bytes -/
 def afterAcc (c : Conn) (m : Nat) (rest : List SResp) : Conn :=
   { c with sends := rest, kacc := c.kacc ++ c.txbs.take (min m c.txbs.length),
-           wireTx := if c.wl then c.wireTx ++ c.txbs.take (min m c.txbs.length) else c.wireTx,
+           wireTx := if c.logTx then c.wireTx ++ c.txbs.take (min m c.txbs.length) else c.wireTx,
            txbs := c.txbs.drop (min m c.txbs.length) }
 
 theorem drains_aux : ∀ (n : Nat) (c : Conn), Safe c → c.txbs.length ≤ n → c.cutoff = false → c.guard = true →
@@ -275,7 +277,7 @@ theorem recvLoop_all (ds : List Bytes) : ∀ (c : Conn), Safe c → c.cutoff = f
     have hne : d ≠ [] := hd d (by simp)
     simp only [List.map_cons, recvLoop, hc, Bool.false_eq_true, ↓reduceIte, hne, List.flatten_cons, hsafe.rx]
     have := ih { c with rxbs := c.rxbs ++ d, kdel := c.kdel ++ d,
-                        wireRx := if c.wl then c.wireRx ++ d else c.wireRx } hsafe hc
+                        wireRx := if c.logRx then c.wireRx ++ d else c.wireRx } hsafe hc
       (fun x hx => hd x (by simp [hx])) hw
     simpa [List.append_assoc, hc] using this
 
